@@ -8,7 +8,7 @@ import (
 
 func init() {
 	register(&propDef{ID: "C12", Run: runC12,
-		Explain: "Structural necessary conditions of 'responses to TCP requests return on the connection the request used', decided on SSA/CFG of /repo: (1) register: on the edge request & TcpConn != nil & hop ok & transaction id ok & transport obtained, the primary of the transport obtained for (tcp, response host, port, transaction) is set to NewTCPClientTransportWithConn(rawMessage.TcpConn), and RawMessage.TcpConn is the very connection the receive loop reads from; registration is in handleRawMessage, which precedes dispatch (C04.4); (2) key-agreement over the client transport table: register, lookup and remove all end in getFullAddr(lower-cased protocol, host, port, transaction id); the transaction id comes from GetClientTransaction(msg) at all three sites and the host argument has the same resolution class (raw name, or name resolved through the configured table) at all three; accepted connections are registered under a literal address, which is compatible with resolved lookups; the key is injective in (protocol, host:port, transaction); (3) remove-on-final: RemoveTransport is guarded by IsFinalResponse, comes after the lookup and before the Send on the looked-up object, and removes under the same protocol/port/transaction as the lookup; (4) failover-order: the registered primary is tried before the shared reconnecting secondary (shared with C20.6); (5) table semantics: GetTransport returns the entry stored under the key when present and stores the entry it creates under that same key.",
+		Explain:    "Structural necessary conditions of 'responses to TCP requests return on the connection the request used', decided on SSA/CFG of /repo: (1) register: on the edge request & TcpConn != nil & hop ok & transaction id ok & transport obtained, the primary of the transport obtained for (tcp, response host, port, transaction) is set to NewTCPClientTransportWithConn(rawMessage.TcpConn), and RawMessage.TcpConn is the very connection the receive loop reads from; registration is in handleRawMessage, which precedes dispatch (C04.4); (2) key-agreement over the client transport table: register, lookup and remove all end in getFullAddr(lower-cased protocol, host, port, transaction id); the transaction id comes from GetClientTransaction(msg) at all three sites and the host argument has the same resolution class (raw name, or name resolved through the configured table) at all three; accepted connections are registered under a literal address, which is compatible with resolved lookups; the key is injective in (protocol, host:port, transaction); (3) remove-on-final: RemoveTransport is guarded by IsFinalResponse, comes after the lookup and before the Send on the looked-up object, and removes under the same protocol/port/transaction as the lookup; (4) failover-order: the registered primary is tried before the shared reconnecting secondary (shared with C20.6); (5) table semantics: GetTransport returns the entry stored under the key when present and stores the entry it creates under that same key.",
 		NotDecided: "affinity across real interleavings; collisions between connections announcing the same sent-by and branch (excluded by the quantifier)."})
 }
 
